@@ -14,7 +14,9 @@ Definition current_key : keyspec :=
 Definition current_flags : mflags :=
   {| fl_snapshot_parent := String.eqb IncludedTaskfileVarsSource "t1.Vars";
      fl_merge_up := MergeIncludedVarsIntoParent;
-     fl_include_eager := IncludeVarsTemplatedAtRead |}.
+     fl_include_eager := IncludeVarsTemplatedAtRead;
+     fl_include_os_first := negb (String.eqb IncludeTemplateVarsBase "env.GetEnviron()"
+                                  && String.eqb IncludeTemplateVarsTop "vertex.Taskfile.Vars") |}.
 
 Definition current_params : params :=
   {| p_layers := VarLayers; p_taskdir := VarLayersTaskDir; p_dir_after := TaskDirTemplatedAfter;
@@ -113,23 +115,31 @@ Definition vrun_mon (r : vrun) : bool := mon_vars sh_concrete (norm_case (vr_cas
    include vars templated at read time, cache keyed on less than
    text+dir+env) have to be repaired, at least, for the model to print the
    documented values. *)
-Record repair := { rp_snapshot : bool; rp_merge_up : bool; rp_eager : bool; rp_key : bool }.
+Record repair := { rp_snapshot : bool; rp_merge_up : bool; rp_eager : bool; rp_key : bool; rp_osfirst : bool }.
 
-Definition rp (a b c d : bool) : repair :=
-  {| rp_snapshot := a; rp_merge_up := b; rp_eager := c; rp_key := d |}.
+Definition rp5 (o a b c d : bool) : repair :=
+  {| rp_snapshot := a; rp_merge_up := b; rp_eager := c; rp_key := d; rp_osfirst := o |}.
+
+Definition rp_size (p : repair) : nat :=
+  (if rp_snapshot p then 1 else 0) + (if rp_merge_up p then 1 else 0) + (if rp_eager p then 1 else 0)
+  + (if rp_key p then 1 else 0) + (if rp_osfirst p then 1 else 0).
+
+(* all sets of repairs, smallest first; among equally small ones those that put the
+   file's vars back over the OS environment in include-statement templates come
+   first: a read-time template that merely saw the wrong one of (global var, OS
+   variable) is not to be explained away by "templated at read time" *)
+Definition all_repairs : list repair :=
+  flat_map (fun o => flat_map (fun a => flat_map (fun b => flat_map (fun c => map (fun d => rp5 o a b c d)
+     [false; true]) [false; true]) [false; true]) [false; true]) [true; false].
 
 Definition repairs_by_size : list repair :=
-  [ rp false false false false;
-    rp true false false false; rp false true false false; rp false false true false; rp false false false true;
-    rp true true false false; rp true false true false; rp true false false true;
-    rp false true true false; rp false true false true; rp false false true true;
-    rp true true true false; rp true true false true; rp true false true true; rp false true true true;
-    rp true true true true ].
+  flat_map (fun k => filter (fun p => Nat.eqb (rp_size p) k) all_repairs) [0; 1; 2; 3; 4; 5].
 
 Definition variant_values (p : repair) (c : vcase) : list string :=
   let fl := {| fl_snapshot_parent := fl_snapshot_parent current_flags && negb (rp_snapshot p);
                fl_merge_up := fl_merge_up current_flags && negb (rp_merge_up p);
-               fl_include_eager := fl_include_eager current_flags && negb (rp_eager p) |} in
+               fl_include_eager := fl_include_eager current_flags && negb (rp_eager p);
+               fl_include_os_first := fl_include_os_first current_flags && negb (rp_osfirst p) |} in
   let k := if rp_key p then strong_key else current_key in
   probe_values c (fst (case_vars {| w_sh := sh_concrete; w_os := c_os c; w_exp := c_exp c;
                                     w_os_wins := EnvOsWinsUnlessExperiment; w_key := k |}
